@@ -114,7 +114,7 @@ def to_op(c):
         flags = a.split(",")[2] if len(a.split(",")) > 2 else ""
         if "O_DIRECTORY" in flags:
             return None
-        return "TL [TS \"open\"; TZ %d; %s; TZ %d; TZ %d]" % (r, ts(s[0]), int("O_CREAT" in flags), int("O_TRUNC" in flags))
+        return "TL [TS \"open\"; TZ %d; %s; TZ %d; TZ %d]" % (r, ts(s[0]), int("O_CREAT" in flags), int("O_TRUNC" in flags or "O_EXCL" in flags))
     if n in ("write", "pwrite64"):
         return "TL [TS \"write\"; TZ %s; %s]" % (fd0.group(1), ts(s[0][:r] if s else b""))
     if n in ("fchmod", "fsync", "fdatasync"):
